@@ -312,6 +312,8 @@ func plans(id, tier string) (Plan, bool) {
 		// a registered value of more than 64 KiB that is also the query
 		jobs = append(jobs, Job{Pkg: pkgSC, Harness: "c14_sched", Instr: "v1", Params: fmt.Sprintf("scenario=17;values=1;valuebytes=66000;policy=delay;budget=%d", pick(1, 2)), Shards: pick(2, 8)})
 		jobs = append(jobs, Job{Pkg: pkgSC, Harness: "c14_sched", Instr: "v1", Params: "scenario=18;values=1;valuebytes=66000;policy=delay;budget=1", Shards: pick(2, 8)})
+		jobs = append(jobs, Job{Pkg: pkgSC, Harness: "c14_sched", Instr: "v1", Params: "scenario=21;values=1;valuebytes=140000;policy=delay;budget=1", Shards: pick(2, 8)})
+		jobs = append(jobs, Job{Pkg: pkgSC, Harness: "c14_sched", Instr: "v1", Params: fmt.Sprintf("scenario=22;values=1;valuebytes=140000;policy=delay;budget=%d", pick(1, 2)), Shards: pick(2, 8)})
 		// a 4.6 KB value added while a query runs
 		jobs = append(jobs, Job{Pkg: pkgSC, Harness: "c14_sched", Instr: "v1", Params: fmt.Sprintf("scenario=19;policy=delay;budget=%d", pick(2, 4)), Shards: pick(2, 8)})
 		jobs = append(jobs, Job{Pkg: pkgSC, Harness: "c14_sched", Instr: "v1", Params: fmt.Sprintf("scenario=20;policy=delay;budget=%d", pick(1, 3)), Shards: pick(2, 8)})
@@ -357,6 +359,7 @@ func plans(id, tier string) (Plan, bool) {
 		return Plan{Level: "exploration", Jobs: []Job{
 			{Pkg: pkgCP, Harness: "c18_lexer", Shards: 16, MaxProcs: 2},
 			{Pkg: pkgCP, Harness: "c18_lexer", Params: fmt.Sprintf("text=unicode;maxlen=%d", pick(4, 5)), Shards: 16, MaxProcs: 2},
+			{Pkg: pkgCP, Harness: "c18_lexer", Params: fmt.Sprintf("text=aliases;maxlen=%d", pick(4, 5)), Shards: 16, MaxProcs: 2},
 			{Pkg: pkgCP, Harness: "c18_chunks", Shards: pick(2, 8), MaxProcs: 2},
 			{Pkg: pkgCP, Harness: "c18_long", Shards: 8, MaxProcs: 2},
 			{Pkg: pkgCP, Harness: "c18_lines", Shards: 9, MaxProcs: 2},
